@@ -444,7 +444,8 @@ func segPrefix(root, p string) bool {
 			return false
 		}
 	}
-	return true
+	// below a root made of ".." elements a cleaned path can go on with "..": it has left the root again
+	return len(ps) == len(rs) || ps[len(rs)] != ".."
 }
 
 var c08Methods = []string{"stat", "open", "openfile-ro", "openfile-rw", "openfile-trunc", "create", "mkdir", "mkdirall",
@@ -528,7 +529,7 @@ func c08Exhaustive(tier string) []corr.Case {
 		maxSeg = 5
 	}
 	names := spellings([]string{"", ".", "..", "a", "base", "basement"}, maxSeg)
-	roots := []string{"/base", "/base/", "/base/sub/..", "//base/.", "/", "base", "./base/", "", ".", "/a/base", "../base", "/base/a"}
+	roots := []string{"/base", "/base/", "/base/sub/..", "//base/.", "/", "base", "./base/", "", ".", "/a/base", "../base", "/base/a", "..", "../..", "a/../..", "./"}
 	for _, r := range roots {
 		for _, n := range names {
 			add("realpath " + corr.HexS(r) + " " + corr.HexS(n))
